@@ -40,7 +40,11 @@ M51_BAND = emask(5, 1, lambda a, q, r: abs(q - r) <= 1)                         
 M51_WIDE = emask(5, 1, lambda a, q, r: abs(q - r) <= 1 or r == (q + 2) % 5)                     # 18 edges
 HEAVY = {'_heavy': 1, '_mem_gb': 16, '_time': 2400}
 
+# concrete filler states (disconnected self loops) around the symbolic core: > 31 (label,state) pairs with outgoing
+# transitions, i.e. several counter rows in the engine (SharedCounter rows hold 31 entries)
+FILLED = [LTS(3, 1, 0, FILL=30), LTS(3, 1, 0, FILL=33, MULT=1, OUTSYM=0)]
 QUICK = [
+  FILLED[0],
   # no initial partition: greatest simulation preorder
   LTS(2, 1, 0, MULT=1),                       # 8 edge bits (parallel edges) + 2 output-size bits
   LTS(2, 2, 0, MULT=1),                       # 16 + 2
@@ -58,7 +62,7 @@ QUICK = [
   LTS(3, 1, 1, REV=1),                        # 9 + 2 + 3 + 1 + 6: every 3-state single-label system with every partition/preorder
   LTS(3, 2, 1, EMASK=M32['src'], OUTSYM=0),   # 12 + 3 + 6
 ]
-THOROUGH = QUICK + [
+THOROUGH = QUICK + [FILLED[1]] + [
   LTS(3, 2, 0, **HEAVY),                                                                 # all 18 edges + 2
   LTS(3, 2, 0, EMASK=M32['loop+b']),
   LTS(2, 2, 1, MULT=1, REV=1),
@@ -72,7 +76,7 @@ CHECKS = {
   'explanation': 'ExplicitLTS::addTransition/init/computeSimulation executed symbolically on every labelled transition system whose edges are drawn from the edge universe of the configuration (presence bit per edge; with MULT two bits per edge = parallel edges and varied adjacency-list order), with a symbolic output size, and (MODE 1) a symbolic partition of the states into blocks (all set partitions, both block orders) with a symbolic reflexive-transitive relation on the blocks; the returned BinaryRelation is read with get(q,r) for all q,r below the output size and compared with a naive greatest-fixpoint oracle of the simulation definition started from the induced state relation (full relation without partition); size() must equal the output size.',
   'bounds': {'quick': 'LTSs over <=5 states and <=3 labels. Without partition: 2 states x 1..3 labels (1..2 labels with parallel edges), 3 states x 1 label (parallel edges; also with the state count following from the edges), 4 states x 1 label, four 12-edge sub-universes of 3 states x 2 labels, one 12-edge sub-universe of 3 states x 3 labels, three 11..12-edge sub-universes of 4 states x 2 labels, a 13-edge band of 5 states x 1 label. With initial partition/preorder (all set partitions, both block orders, all preorders on the blocks): 2 states x 1..2 labels, 3 states x 1 label (complete), one 12-edge sub-universe of 3 states x 2 labels. Output size symbolic in 0..|Q| unless the edge set already uses 12 bits (10..21 free bits per query)',
              'thorough': 'as quick plus the complete 3 states x 2 labels universe (18 edge bits), a fifth 12-edge sub-universe of it, 2 states x 2 labels with parallel edges and partition/preorder, an 18-edge sub-universe of 5 states x 1 label, two further 3 states x 2 labels sub-universes with partition/preorder'},
-  'outside': 'more than 5 states or 3 labels; systems with >= 3 states and >= 2 labels, and with 5 states, only inside the listed sub-universes; edge multiplicity > 2; output sizes larger than the number of states; partitions with empty blocks and block relations that are not reflexive/transitive (excluded by the documented assertions of the engine); row sizes of the shared counters other than 31 (needs > 4000 states)',
+  'outside': 'systems with more than 5 symbolic states (the filler configurations add 30..33 concrete, disconnected self-loop states only); more than 5 states or 3 labels; systems with >= 3 states and >= 2 labels, and with 5 states, only inside the listed sub-universes; edge multiplicity > 2; output sizes larger than the number of states; partitions with empty blocks and block relations that are not reflexive/transitive (excluded by the documented assertions of the engine); row sizes of the shared counters other than 31 (needs > 4000 states)',
   'assumptions': ['the LTS has at least one state and the output size does not exceed the number of states (preconditions asserted by SimulationEngine)'],
   'harnesses': [
     {'name': 'lts', 'src': 'harness/C16/lts.cc', 'tus': ['explicit_lts_sim', 'util'],
